@@ -20,6 +20,14 @@ FLOORS = {'quick': {'distinct_nontrivial': 2000, 'line': 100, 'rect': 100, 'circ
           'thorough': {'distinct_nontrivial': 40000, 'line': 2000, 'rect': 2000, 'circle': 2000, 'path': 2000, 'polygon': 1000, 'text': 2000,
                        'g_line': 2000, 'g_path': 2000}}
 SCALES = [0.5, 1.0, 3.0, 8.0, 10.0, 20.0, 37.5]
+# beyond the values the property names: settings that are not a multiple of 1/2 (what `--scale 1.2` or `1.025` gives)
+ODD_SCALES = [9.6, 8.2, 7.2, 10.4, 0.3, 1.3]
+
+
+def f32(x):
+    """the value the driver (and svgbob) actually computes with"""
+    import struct
+    return struct.unpack('<f', struct.pack('<f', x))[0]
 TOL = F(1, 1000)
 
 
@@ -33,17 +41,17 @@ def check_case(ctx, case):
         return 'conversion failed: ' + (r1.fail_text() if not r1.ok else r2.fail_text())
     try:
         a = Scene(r1.out)
-        b = Scene(r2.out, sc=F(sc))
+        b = Scene(r2.out, sc=F(f32(sc)))
     except Malformed as e:
         return 'output not parseable: %s' % e
     ctx.note(key_of(rows, sc), sc != 1.0 and bool(a.els), *sorted(gen.kinds_in(a)))
-    if abs(b.W / F(sc) - a.W) > TOL or abs(b.H / F(sc) - a.H) > TOL:
+    if abs(b.W / F(f32(sc)) - a.W) > TOL or abs(b.H / F(f32(sc)) - a.H) > TOL:
         return 'canvas %sx%s at scale %s is not %s times %sx%s' % (b.W, b.H, sc, sc, a.W, a.H)
     if flags & 1:
         if len(a.backdrop) != 1 or len(b.backdrop) != 1:
             return 'backdrop missing'
         for k in ('width', 'height'):
-            if abs(F(b.backdrop[0].attrs[k]) / F(sc) - F(a.backdrop[0].attrs[k])) > TOL:
+            if abs(F(b.backdrop[0].attrs[k]) / F(f32(sc)) - F(a.backdrop[0].attrs[k])) > TOL:
                 return 'backdrop %s not scaled' % k
     if case.get('reuse'):
         # the same scale through a CellBuffer that was rendered at another scale before
@@ -51,7 +59,7 @@ def check_case(ctx, case):
         if not r3.ok:
             return 'conversion failed: ' + r3.fail_text()
         if r3.out != r2.out:
-            c = Scene(r3.out, sc=F(sc))
+            c = Scene(r3.out, sc=F(f32(sc)))
             u1, u2 = multiset_match(b.els, c.els, F(0))
             return 'a CellBuffer rendered at scale %s after a render at scale %s differs from a fresh one: fresh only %s; reused only %s' % (
                 sc, case['reuse'], [show_el(e) for e in u1[:3]], [show_el(e) for e in u2[:3]])
@@ -90,7 +98,7 @@ def run_shard(ctx, shard):
             # force grouped members: something touching, not endorsable
             extra = rng.choice([['.-->', '|'], ['*--.', "   '->"], ['+--', '| a', '+-'], ['o-.', '  )', " -'"], ['/-\\', '\\-/ x'], ['--> b', ' ^', ' |']])
             rows = list(rows) + [''] + extra
-        case = {'rows': rows, 'scale': rng.choice(SCALES), 'flags': rng.choice([0, 0, 1, 7])}
+        case = {'rows': rows, 'scale': rng.choice(SCALES) if rng.random() < 0.85 else rng.choice(ODD_SCALES), 'flags': rng.choice([0, 0, 1, 7])}
         if rng.random() < 0.4:
             case['reuse'] = rng.choice([s_ for s_ in SCALES if s_ != case['scale']])
         ctx.run_case(case)
